@@ -37,10 +37,11 @@ CLAIMED = {
              "broadcast). " + DECIDES % "C02",
         technique="wrapper-wiring check; term-valued path-sensitive dataflow with mutex typestate, epoch reset at condition waits, packed-field classification and wake-obligation check at returns"),
     "C03": dict(
-        text="Rules C03.1-C03.2: wait/signal/broadcast call pthread_cond_wait/signal/broadcast on &cond->hdl, TRUE iff 0, no cross-wiring "
+        text="Rules C03.1-C03.3: wait/signal/broadcast call pthread_cond_wait/signal/broadcast on &cond->hdl, TRUE iff 0, no cross-wiring "
              "(a broadcast degenerating to signal is reported); the PMutex pointer cast to pthread_mutex_t* is justified by the record "
-             "layout of struct PMutex_ (pthread_mutex_t at offset 0). " + DECIDES % "C03",
-        technique="wrapper-wiring check plus cross-unit record-layout check"),
+             "layout of struct PMutex_ (pthread_mutex_t at offset 0); the native mutex is the only lock state the mutex functions read "
+             "(pthread_cond_wait unlocks and relocks it behind the PMutex API, so any other state they consulted would be stale after a wait). " + DECIDES % "C03",
+        technique="wrapper-wiring check, cross-unit record-layout check, who-reads-field rule over the mutex unit's lock functions"),
     "C19": dict(
         text="Rules C19.1-C19.4 over every call site of an interruptible blocking call in the library (sem_open x2, sem_wait, shm_open x2, "
              "connect, accept, recv, recvfrom, send, sendto, poll, clock_nanosleep): in the scenario 'this evaluation failed with EINTR on "
@@ -55,7 +56,8 @@ CLAIMED = {
              "is never reported; the success path returns the system call's result unchanged, buffer and length reach it unmodified and at "
              "full width; receive_from builds the sender address from the objects recvfrom filled; SIGPIPE is ignored at library "
              "initialisation or MSG_NOSIGNAL is passed; EAGAIN/EWOULDBLOCK/EINPROGRESS map to the codes the retry logic tests; connected is "
-             "set only after connect==0 or wait+SO_ERROR==0. " + DECIDES % "C09",
+             "set only after connect==0 or wait+SO_ERROR==0, and SO_ERROR is read only on paths carrying the fact that the writability "
+             "wait succeeded. " + DECIDES % "C09",
         technique="scenario-seeded guard dataflow per call site (EINTR / would-block), alias-based result provenance, switch-table recovery, type-width check of the length path"),
     "C10": dict(
         text="Rules C10.1-C10.6 on psocket.c (C10.5 includes: a flag stored into a bit-field narrower than its source is normalised to 0/1): every read of socket->fd in an operation is reached only after the closed test passed "
@@ -90,7 +92,8 @@ CLAIMED = {
         text="Rules C05.1-C05.5 on puthread.c / puthread-posix.c: native create and all initialising stores under the creation spinlock, "
              "the new thread reads creator-initialised fields only after passing it; created handles start with 2 references, adopted "
              "with 1, ref_count otherwise only through atomic inc/dec_and_test, release exactly when dec_and_test is TRUE, own reference "
-             "dropped by the destructor of the library TLS slot; join refuses non-joinable, waits on its handle, then reads ret_code; exit "
+             "dropped by the destructor of the library TLS slot, and a function that drops the handle it read from that slot clears the slot "
+             "on every path afterwards; join refuses non-joinable, waits on its handle, then reads ret_code; exit "
              "stores the code before the native exit for library threads only; the key notifier is called only by replace_local under both "
              "NULL tests before the new value is stored and is the native key's destructor; first-use key creation frees/deletes on the "
              "losing and failing paths. " + DECIDES % "C05",
@@ -98,13 +101,15 @@ CLAIMED = {
     "C11": dict(
         text="Rules C11.1-C11.8 on pcryptohash*.c: dispatch table (every enumerator has a case, six slots from one algorithm unit, "
              "variant-specific constructor, standard digest length fitting the state array, exact range test); dispatcher typestate "
-             "(update only while open, finish once then closed before the digest is read, reset reopens, bounded copy-out); hex "
-             "encoding as term identities; the psize update length never compared/accumulated through a narrowing cast without "
+             "(update only while open, finish only on an object seen open, the digest read only from a finished state, every exit "
+             "after finish leaves closed set - exits for a NULL digest pointer excluded because every digest slot returns an embedded "
+             "array -, reset reopens, bounded copy-out); hex encoding decided on the reader with its helpers inlined (two table digits per "
+             "byte at 2i and 2i+1 or through a once-per-digit cursor, hash_len iterations, zero-filled 2*hash_len+1 buffer); the psize update length never compared/accumulated through a narrowing cast without "
              "high-part accounting; block-size constants agree with the buffer's byte size and the padding constants satisfy the "
              "standard identity; reset re-initialises every field update/finish write; possibly-aliasing padding stores OR their bits "
              "in; the carry-out predicate of a multi-word addition with carry-in equals the true carry on every feasible ordering class "
              "of (sum, operands, carry-in). " + DECIDES % "C11",
-        technique="switch/slot table recovery, guard dataflow at slot calls, typed-AST narrowing rule with sibling cross-check, constant-geometry agreement with record layouts, transitive field write sets, index-aliasing rule, exhaustive evaluation of comparison-only predicates over the finite set of ordering classes"),
+        technique="switch / if-chain / constant-table dispatch recovery, exit typestate with guard dataflow at slot calls, linear index evaluation of the encoder loop, typed-AST narrowing rule with sibling cross-check, constant-geometry agreement with record layouts, transitive field write sets, index-aliasing rule, exhaustive evaluation of comparison-only predicates over the finite set of ordering classes"),
     "C12": dict(
         text="Rules C12.1-C12.5 on ptree*.c: dispatch triples per tree type; every descent loop (lookup, 3 inserts, 3 removes) calls the "
              "comparator as (search key, node key, data) and goes left on < 0 / right on > 0; insert returns TRUE exactly when a new node "
@@ -130,38 +135,44 @@ CLAIMED = {
              "never frees or writes through user keys/values. " + DECIDES % "C14",
         technique="abstract interpretation of node/pair identity (term flow with widened descent and predecessor loops) with exit obligations on notifier arguments"),
     "C15": dict(
-        text="Rules C15.1-C15.5 on phashtable.c / plist.c: no key-dependent arithmetic in a signed type in the bucket function; every bucket "
-             "subscript is bounded by table->size (loop counter or bucket function modulo table->size), size equals the allocated slot count; "
-             "keys compared by identity, insert allocates only after an unsuccessful search, remove unlinks the identical node before freeing "
-             "it and stops, not-found marker (ppointer)-1, listing functions walk every chain to its end; no use after release; C15.5 (shape analysis with summarised list segments and symbolic "
+        text="Rules C15.1-C15.6 on phashtable.c / plist.c: no key-dependent arithmetic in a signed type in the bucket computation; every bucket "
+             "subscript of the all-bucket walkers is a counter bounded by table->size, size is stored once and equals the (symbolically evaluated) "
+             "zero-filled slot count; C15.6 (chain shape analysis, symbolic table, chains of every length, unique keys): insert / lookup / remove "
+             "subscript the table only with the key's hash modulo table->size, insert overwrites a present key in place and otherwise links exactly "
+             "one new node after comparing every node, lookup returns the stored value or (ppointer)-1, remove unlinks and releases exactly the key's "
+             "node; listing functions walk every chain to its end; no use after release; C15.5 (shape analysis with summarised list segments and symbolic "
              "sequence contents, analysed to a fixpoint, lists of every length): p_list_append / prepend / remove / reverse / last / foreach / free return or "
              "leave exactly the sequence the corresponding sequence operation gives, never follow a released item's link, never dereference NULL; the length "
              "counter is 1 + one per link followed. " + DECIDES % "C15",
         technique="typed-AST signedness rule, index provenance, loop-exit analysis of chain walks, path-sensitive use-after-release typestate, list-segment shape analysis with sequence-content tracking (fold/materialise to a fixpoint)"),
     "C16": dict(
-        text="Rules C16.1-C16.6 on pinifile.c: every unbounded %[ conversion and strcpy in the parse loop fits its destination "
+        text="Rules C16.1-C16.7 on pinifile.c: every unbounded %[ conversion and strcpy in the parse loop fits its destination "
              "array given the fgets bound; parameter objects come only from those arrays, which bounds the list getter's buffer; sections "
              "are linked only with a non-empty key list and parameters only into an open section; getters return the default for a missing "
              "key and release the looked-up copy; each line string is freed and the file closed on every path; typed getters use the "
              "documented conversion primitive and radix; the four line patterns, their order and conversion counts are the documented grammar "
-             "table and the header pattern is applied only to lines that start with '[' and end with ']'. What the scanf patterns accept "
+             "table and the header pattern is applied only to lines that start with '[' and end with ']'; section names, keys and values reach "
+             "their constructors only as trimmed text and the empty-quotes normalisation is made on the trimmed value. What the scanf patterns accept "
              "beyond that table agreement is not decided. " + DECIDES % "C16",
-        technique="format-string conversion bounds against array types, single-producer who-calls rule, restricted guard dataflow typestate for line/file/section, format-table agreement with edge-cut dominance of the header guards"),
+        technique="format-string conversion bounds against array types, single-producer who-calls rule, restricted guard dataflow typestate for line/file/section, format-table agreement with edge-cut dominance of the header guards, raw/trimmed typestate of the text buffers"),
     "C17": dict(
         text="Rules C17.1-C17.4 on psocketaddress.c: every access through the native/destination buffer lies below the established length "
              "(offsets and sizes from the record layouts); to_native and new_from_native copy the same (object field, native byte range) "
              "pairs per family, port byte-swapped both ways and nothing else, family constants agree; get_native_size and to_native's guard "
-             "use the same structure sizes; text path restricted to numeric hosts with the addrinfo result freed on every path. " + DECIDES % "C17",
+             "use the same structure sizes; text path restricted to numeric hosts with the addrinfo result freed on every path, and present "
+             "(after preprocessing) whenever the unit's compile flags provide getaddrinfo and a scope id. " + DECIDES % "C17",
         technique="guard dataflow lower bounds against record layouts, sibling field-pair agreement, constant-table agreement"),
     "C18": dict(
-        text="Rules C18.1-C18.5 over every function of the 37 analysed units that acquires a resource (every allocation site is treated "
+        text="Rules C18.1-C18.6 over every function of the 37 analysed units that acquires a resource (every allocation site is treated "
              "as able to fail): no acquisition result is dereferenced or passed to a dereferencing libc function before its NULL test; "
              "on every failure exit everything acquired earlier in the call is released, returned or owned by an object that is released "
              "through its typed free (wrapper releasers, success-ownership of constructors and constant-argument reachability are "
              "summarised from the code); nothing is used, re-released or returned after its release; fresh objects handed to the silent "
-             "list functions are reported (7 known findings); no raw allocator call outside pmem.c. The frame condition on pre-existing "
+             "list functions are reported (7 known findings); no raw allocator call outside pmem.c; a destructor handed a local, partially "
+             "built object dereferences no member that is still NULL there (failed allocation or never stored since the zero fill) without a "
+             "test. The frame condition on pre-existing "
              "objects is not decided. " + DECIDES % "C18",
-        technique="path-sensitive resource typestate with inferred acquire/release/ownership summaries; use-after-release typestate; who-may-call rule with positive control"),
+        technique="path-sensitive resource typestate with inferred acquire/release/ownership summaries; use-after-release typestate; who-may-call rule with positive control; bottom-up NULL-need summaries of destructors matched against per-path member facts at unwinding calls"),
     "C20": dict(
         text="Rules C20.1-C20.5: ownership table inferred from the constructors (fields filled from acquiring calls) checked against each "
              "object's free function; every descriptor/handle obtained in a function is closed once, owned by the returned object or "
